@@ -50,6 +50,7 @@ type c3hjob struct {
 	form    string // t | and | or | andor | orand
 	cells   []c3val
 	regimes string
+	bare    bool // missing cells are events without any column (c03e.go)
 	result  string
 	err     error
 }
@@ -182,9 +183,24 @@ func c3regimeCells(r *RNG, n int, regime byte, calls []c3call) []c3val {
 	return out
 }
 
-func c3genHaving(r *RNG) *c3hjob {
+func c3genHaving(r *RNG) *c3hjob { return c3genHavingOpt(r, false) }
+
+// c3genHavingBare: the missing cells of the run are events without any column, whole batches of them included
+// (c03e.go); count(*) is usually selected, so that conditions over it decide such batches.
+func c3genHavingBare(r *RNG) *c3hjob { return c3genHavingOpt(r, true) }
+
+func c3genHavingOpt(r *RNG, bare bool) *c3hjob {
 	m := c3genMixed(r) // the select list (its rows are replaced below)
-	j := &c3hjob{n: r.Range(1, 5), calls: m.calls}
+	j := &c3hjob{n: r.Range(1, 5), calls: m.calls, bare: bare}
+	if bare && r.Intn(3) > 0 {
+		has := false
+		for _, c := range j.calls {
+			has = has || c.agg == "count_star"
+		}
+		if !has {
+			j.calls = append(j.calls, c3call{agg: "count_star", param: "-", arg: c3arg{op: "id", den: 1}})
+		}
+	}
 	// make a numeric call likely to be in the list: aliases and repeated calls need one
 	if r.Intn(3) > 0 {
 		agg := c3havingAggs[r.Intn(len(c3havingAggs)-1)]
@@ -228,6 +244,9 @@ func c3genHaving(r *RNG) *c3hjob {
 	j.regimes = string(reg)
 	for _, g := range reg {
 		j.cells = append(j.cells, c3regimeCells(r, j.n, g, append(append([]c3call{}, j.calls...), j.hidden...))...)
+	}
+	if bare {
+		j.cells = c3sprinkleEmptyBatches(r, j.cells, j.n)
 	}
 	return j
 }
@@ -284,12 +303,16 @@ func c3callSpec(cs []c3call) string {
 }
 
 func c3having(rng *RNG, tier string, o *Out) error {
-	nH := 200
+	nH, nHe := 200, 50
 	if tier == "thorough" {
-		nH = 2000
+		nH, nHe = 2000, 500
 	}
-	jobs := make([]*c3hjob, nH)
+	jobs := make([]*c3hjob, nH+nHe)
 	for i := range jobs {
+		if i >= nH {
+			jobs[i] = c3genHavingBare(rng)
+			continue
+		}
 		jobs[i] = c3genHaving(rng)
 	}
 	var wg sync.WaitGroup
@@ -301,7 +324,7 @@ func c3having(rng *RNG, tier string, o *Out) error {
 		go func() {
 			defer wg.Done()
 			defer func() { <-sem }()
-			j.result, j.err = c3sqlRunW(j.query(), j.n, len(j.calls), j.cells, c3mixedRow, true)
+			j.result, j.err = c3sqlRunB(j.query(), j.n, len(j.calls), j.cells, c3mixedRowOf(j.bare), true, j.bare)
 		}()
 	}
 	wg.Wait()
@@ -309,7 +332,15 @@ func c3having(rng *RNG, tier string, o *Out) error {
 		if j.err != nil {
 			return j.err
 		}
-		o.Line("C03 H %d %d %s # %d %s # %s # %s # %s", j.n, len(j.calls), c3callSpec(j.calls), len(j.hidden), c3callSpec(j.hidden),
+		fam := "H"
+		if j.bare {
+			fam = "HE"
+			o.Count("sqlhaving_empty_events")
+			if c3hasEmptyBatch(j.cells, j.n) {
+				o.Count("sqlhaving_batch_of_empty_events_only")
+			}
+		}
+		o.Line("C03 %s %d %d %s # %d %s # %s # %s # %s", fam, j.n, len(j.calls), c3callSpec(j.calls), len(j.hidden), c3callSpec(j.hidden),
 			j.predTok(), c3toks(j.cells), j.result)
 		o.Count("sqlhaving_" + j.form)
 		if strings.ContainsRune(j.regimes, 'o') {
